@@ -108,4 +108,33 @@ example : CanBumpRec ({ (default : Rec) with retry := some ⟨none, .val (.int 2
   subst h2
   decide
 
+/-- **C13**: re-staging a record that has just become `retrying` bumps its tally by exactly one
+    and stages exactly one ready entry for the task, carrying the record's context list and
+    predecessors and the bumped retry state; a record that was already `retrying`, or is not
+    `retrying`, is left alone and nothing is staged (one re-offer per bump of the tally) -/
+theorem C13_restage_bumps_once (k : TaskKey) (idx : Nat) (old : Status) (c : Cond) (r : Rec) (rs : RetryState)
+    (hr : c.st.sequence[idx]? = some r) (hrs : r.retry = some rs) :
+    (r.status == some .retrying && old != .retrying) = true →
+      (restageRetry k idx old c).2.st.sequence[idx]? = some { r with retry := some { rs with tally := rs.tally + 1 } } ∧
+      ∃ l, (restageRetry k idx old c).2.st.staged = l ++
+        [({ id := k.1, route := k.2, ctxsIn := if r.ctxsIn.isEmpty then [0] else r.ctxsIn, prev := r.prev, ready := true,
+            retry := some { rs with tally := rs.tally + 1 } } : Staged)] := by
+  intro hcond
+  unfold restageRetry
+  simp only [bind, M.bind', M.get, liftOpt, hr, pure, M.pure', hcond, if_true, hrs, M.modifySt, M.modify]
+  constructor
+  · show (WState.addStaged _ _).sequence[idx]? = _
+    simp only [WState.addStaged_sequence, WState.removeStaged_sequence]
+    show (c.st.sequence.modify idx _)[idx]? = _
+    rw [getElem?_modify_same, hr]
+    rfl
+  · exact ⟨_, rfl⟩
+
+theorem C13_no_restage_otherwise (k : TaskKey) (idx : Nat) (old : Status) (c : Cond) (r : Rec)
+    (hr : c.st.sequence[idx]? = some r) (hcond : (r.status == some .retrying && old != .retrying) = false) :
+    (restageRetry k idx old c).2 = c := by
+  unfold restageRetry
+  simp only [bind, M.bind', M.get, liftOpt, hr, pure, M.pure', hcond]
+  rfl
+
 end Orq
